@@ -59,7 +59,7 @@ Verdicts1(inp, o) ==
 \* A rune-sweep record (Gen_c06s) carries one observation per maximal run of code points that
 \* behaved alike: the first run in the record itself, the others under obs.rest.  Each run is
 \* judged like a plain record; its verdicts name the first code point of the run.
-Runs(r) == <<[inp |-> r.inp, obs |-> r.obs] @@ (IF Has(r, "sweep") THEN [sweep |-> r.sweep] ELSE <<>>)>>
+Runs(r) == <<[inp |-> r.inp, obs |-> r.obs] @@ (IF Has(r.obs, "run") THEN [sweep |-> r.obs.run] ELSE <<>>)>>
            \o (IF Has(r.obs, "rest") THEN r.obs.rest ELSE <<>>)
 Verdicts(r) ==
   IF ~Has(r, "inp") THEN (IF Has(r.obs, "empty") THEN {} ELSE {V("panic", "sweep")})
